@@ -341,6 +341,28 @@ def run(ctx):
 
         # ---------------- C15.d
         RS = f"{P}::distribution::RollingSummary"
+        # one clock: the time a sample is stamped with (what add() files it under) and the time the window is evaluated at
+        # (what snapshot() expires against) are readings of the same clock function
+        def _clock(x):
+            x = strip_sym(x)
+            return strip_generics(x[1]) if isinstance(x, tuple) and x and x[0] == "call" and isinstance(x[1], str) and not x[2] else None
+
+        stamps, evals = [], []
+        for f_ in p.fns:
+            if "::tests::" in f_.path or not f_.j.get("mir"):
+                continue
+            for c in f_.body.calls():
+                if c.is_("AtomicBucket<T>::push") and "AtomicBucketInstant" in f_.path:
+                    t_ = strip_sym(arg_syms(c)[1])
+                    stamps.append((c, _clock(t_[3][1]) if t_[0] == "agg" and t_[1] == "tuple" and len(t_[3]) == 2 else None))
+                elif c.is_("RollingSummary::snapshot") and len(c.args) == 2:
+                    evals.append((c, _clock(arg_syms(c)[1])))
+        if not stamps or not evals:
+            chk.unrecognised("C15.d", "<anchor> sample timestamp / window evaluation time", f"found {len(stamps)} stamping push(es) and {len(evals)} snapshot call(s)")
+        else:
+            srcs = {t for _, t in stamps} | {t for _, t in evals}
+            ok = len(srcs) == 1 and None not in srcs
+            chk.ob("C15.d", "summary window [one clock]", ok, f"samples are stamped and the window is evaluated with {next(iter(srcs))}()" if ok else f"samples are stamped with {sorted(str(t) for _, t in stamps)} but the window is evaluated at {sorted(str(t) for _, t in evals)}: when the two readings drift apart (a cached clock that lags), fresh samples are filed outside the window and the quantiles come from the wrong subset", stamps[0][0].loc())
         add = one_method(chk, "C15.d", p, RS, "add")
         snap = one_method(chk, "C15.d", p, RS, "snapshot")
         preds = {}
